@@ -488,12 +488,12 @@ class SimSSHServer:
         if key is not None and key.decode('latin-1') in p.get('unsignable', []):
             # the host-key algorithm is advertised, but this server cannot sign with it (e.g. a crypto policy that forbids SHA-1)
             log['stage'] = 'cannot_sign'
-            yield ('send', 'disconnect', wire.frame(bytes([wire.MSG_DISCONNECT]) + wire.u32(3) + wire.sstr('signature failed') + wire.sstr('')))
+            yield ('send', 'disconnect', self.frame(bytes([wire.MSG_DISCONNECT]) + wire.u32(3) + wire.sstr('signature failed') + wire.sstr('')))
             yield ('close',)
             return
         if kex is None or key is None:
             log['stage'] = 'no_common_alg'
-            yield ('send', 'disconnect', wire.frame(bytes([wire.MSG_DISCONNECT]) + wire.u32(3) + wire.sstr('no matching algorithm') + wire.sstr('')))
+            yield ('send', 'disconnect', self.frame(bytes([wire.MSG_DISCONNECT]) + wire.u32(3) + wire.sstr('no matching algorithm') + wire.sstr('')))
             yield ('close',)
             return
         kexs = kex.decode('latin-1')
@@ -514,12 +514,12 @@ class SimSSHServer:
             self.log['gex_requests'].append({'conn': pc.ordinal, 'alg': kexs, 'min': mn, 'n': n, 'max': mx, 'answer': size, 'delivered': False})
             log['stage'] = 'gex_request'
             if size is None:
-                yield ('send', 'disconnect', wire.frame(bytes([wire.MSG_DISCONNECT]) + wire.u32(3) + wire.sstr('no matching DH grp found') + wire.sstr('')))
+                yield ('send', 'disconnect', self.frame(bytes([wire.MSG_DISCONNECT]) + wire.u32(3) + wire.sstr('no matching DH grp found') + wire.sstr('')))
                 yield ('close',)
                 return
             pmod = wire.det_int(size, self.name + '/gex')
             g = int(self.p.get('gex', {}).get('g', 2))
-            yield ('send', 'group', wire.frame(bytes([wire.MSG_GEX_GROUP]) + wire.mpint(pmod) + wire.mpint(g)))
+            yield ('send', 'group', self.frame(bytes([wire.MSG_GEX_GROUP]) + wire.mpint(pmod) + wire.mpint(g)))
             if pc.log['tx'][-1]['intact']:
                 self.log['gex_requests'][-1]['delivered'] = True
                 self.log['gex_handed'].append((kexs, size))
@@ -536,7 +536,7 @@ class SimSSHServer:
             log['rx'].append(('gex_e_matches_x', x is not None and int.from_bytes(e, 'big') == pow(g, x, pmod)))
             self._check_e(log, e, pmod)
             reply = bytes([wire.MSG_GEX_REPLY]) + wire.sstr(blob) + wire.mpint(wire.det_int(min(size, 512) - 1, 'f')) + wire.sstr(wire.sstr(keys_) + wire.sstr(wire.det_bytes(64, 'sig')))
-            yield ('send', 'reply', wire.frame(reply))
+            yield ('send', 'reply', self.frame(reply))
         else:
             if mtype != wire.MSG_KEXDH_INIT:
                 yield ('close',)
@@ -554,12 +554,12 @@ class SimSSHServer:
             reply = bytes([wire.MSG_KEXDH_REPLY]) + wire.sstr(blob) + fpart + wire.sstr(wire.sstr(keys_) + wire.sstr(wire.det_bytes(64, 'sig')))
             ndebug = int(p.get('debug_before_reply', 0))
             for _ in range(ndebug):
-                yield ('send', 'debug', wire.frame(bytes([wire.MSG_DEBUG, 0]) + wire.sstr('sim debug') + wire.sstr('')))
-            yield ('send', 'reply', wire.frame(reply))
+                yield ('send', 'debug', self.frame(bytes([wire.MSG_DEBUG, 0]) + wire.sstr('sim debug') + wire.sstr('')))
+            yield ('send', 'reply', self.frame(reply))
         if pc.log['tx'][-1]['intact']:
             self.log['hostkeys_sent'].append({'conn': pc.ordinal, 'alg': keys_, 'kex': kexs, 'blob_sha256': wire.fp_sha256(blob), 'len': len(blob)})
         log['stage'] = 'reply_sent'
-        yield ('send', 'newkeys', wire.frame(bytes([wire.MSG_NEWKEYS])))
+        yield ('send', 'newkeys', self.frame(bytes([wire.MSG_NEWKEYS])))
         yield ('drain',)
         yield ('close',)
 
@@ -582,6 +582,20 @@ class SimSSHServer:
         log['stage'] = 'ssh1_pubkey_sent'
         yield ('eof',)
         yield ('close',)
+
+    def frame(self, payload):
+        """Frame a packet sent after the KEXINIT: minimal padding unless the profile asks for padding variation on every packet."""
+        if self.p.get('pad_all'):
+            return self._padded(payload)
+        return wire.frame(payload)
+
+    def _padded(self, payload):
+        extra = int(self.p.get('pad_extra', 0))
+        pad = 8 - ((5 + len(payload)) % 8)
+        if pad < 4:
+            pad += 8
+        pad = min(255 - (255 - pad) % 8, pad + 8 * extra)
+        return wire.frame(payload, pad_len=pad, pad_byte=bytes([int(self.p.get('pad_byte', 0))]))
 
     def framed_kexinit(self):
         payload = self.kexinit()
